@@ -511,25 +511,7 @@ Proof.
   split; [exact H1|]. unfold zlen. lia.
 Qed.
 
-Theorem get_excerpts_spec {A} (data : list A) k size : 0 <= k -> 1 <= size ->
-  exists out, get_excerpts data k size = Some out /\ GetExc_Spec data k size out.
-Proof.
-  intros Hk Hs. unfold get_excerpts, GetExc_Spec.
-  destruct (zlen data <? k * size) eqn:E; [exists data; split; reflexivity|].
-  destruct (k =? 0) eqn:E0.
-  { exists []. split; [reflexivity|]. exists []. split; [|reflexivity].
-    split; [exact I|]. unfold zlen; cbn [length]. lia. }
-  destruct (k =? 1) eqn:E1.
-  { eexists. split; [reflexivity|]. exists [mkiv 0 size]. split.
-    - split; [cbn [excP lo hi]; nia|]. unfold zlen; cbn [length]. lia.
-    - cbn [map concat]. now rewrite app_nil_r. }
-  destruct (excerpts_spec (zlen data) k size ltac:(lia) ltac:(lia)) as (l & Hl & Hspec).
-  rewrite Hl. destruct l as [|i r].
-  { exfalso. unfold excerpts in Hl. replace (2 <=? k) with true in Hl by lia. injection Hl as Hl.
-    destruct (Z.to_nat k) as [|f] eqn:Ek; [lia|]. cbn [exc_loop] in Hl.
-    replace (0 * excerpt_step (zlen data) k size >=? zlen data) with false in Hl by nia. discriminate. }
-  eexists. split; [reflexivity|]. exists (i :: r). split; [exact Hspec|reflexivity].
-Qed.
+(* get_excerpts: see Proofs2.v (its model goes through data_chunk and the final assert) *)
 
 Lemma exc_spec_b_spec n k size l : exc_spec_b n k size l = true <-> Exc_Spec n k size l.
 Proof. unfold exc_spec_b, Exc_Spec. rewrite andb_true_iff, exc_b_spec, Z.leb_le. tauto. Qed.
